@@ -27,21 +27,32 @@ type callable struct {
 }
 
 type recCase struct {
-	Kind    string         `json:"kind"` // "rec"
-	Src     string         `json:"src"`
-	Rec     bool           `json:"rec"`
-	Entry   string         `json:"entry"` // "file": from the module top level; "go": starlark.Call from the host on an idle thread
-	Chain   []string       `json:"chain"`
-	Events  [][]int        `json:"events"` // [0,fv,code] call fn; [1,b] call builtin; [2] return
-	Codes   map[string]int `json:"codes"`
-	Obs     string         `json:"obs"`    // "ok:<n>" | "recursion:<fn>" | "other:..."
-	Expect  string         `json:"expect"` // from the rule: "ok:<n>" | "recursion:<fn>"
-	Problem string         `json:"problem,omitempty"`
+	Kind     string         `json:"kind"` // "rec"
+	Src      string         `json:"src"`
+	Rec      bool           `json:"rec"`
+	NoLocals bool           `json:"nolocals"`
+	Entry    string         `json:"entry"` // "file": from the module top level; "go": starlark.Call from the host on an idle thread
+	Chain    []string       `json:"chain"`
+	Events   [][]int        `json:"events"` // [0,fv,code] call fn; [1,b] call builtin; [2] return
+	Codes    map[string]int `json:"codes"`
+	Obs      string         `json:"obs"`    // "ok:<n>" | "recursion:<fn>" | "other:..."
+	Expect   string         `json:"expect"` // from the rule: "ok:<n>" | "recursion:<fn>"
+	Problem  string         `json:"problem,omitempty"`
 }
 
 var edgeKinds = []string{"direct", "lambda", "sorted", "min", "max"}
 
-func edgeExpr(kind string) (pre string, call string) {
+func edgeExpr(kind string, zl bool) (pre string, call string) {
+	if zl {
+		// functions without parameters and without local variables: the rest of the chain is in the host list CH
+		switch kind {
+		case "direct":
+			return "", "CH.pop(0)()"
+		case "lambda":
+			return "", "(lambda: CH.pop(0)())()"
+		}
+		return kind + "([1], key=lambda x: ACC.append(CH.pop(0)()))\n    ", "ACC.pop()"
+	}
 	switch kind {
 	case "direct":
 		return "", "chain[0](chain[1:])"
@@ -67,14 +78,21 @@ func recMain(argv []string) {
 		for _, c := range []int{0, 1, 2, 3, 10} {
 			edge[c] = edgeKinds[r.Intn(len(edgeKinds))]
 		}
+		// every other block of five graphs uses functions with NO parameters and NO locals (their frames have an
+		// empty locals array, like a built-in's): the chain is kept in a host-provided list
+		zl := (i/5)%2 == 1
+		param, test := "chain", "chain"
+		if zl {
+			param, test = "", "CH"
+		}
 		var b strings.Builder
 		for _, c := range []int{0, 1, 2, 3} {
-			pre, call := edgeExpr(edge[c])
-			fmt.Fprintf(&b, "def p%d(chain):\n    if not chain:\n        return 0\n    %sreturn 1 + %s\n", c, pre, call)
+			pre, call := edgeExpr(edge[c], zl)
+			fmt.Fprintf(&b, "def p%d(%s):\n    if not %s:\n        return 0\n    %sreturn 1 + %s\n", c, param, test, pre, call)
 		}
-		pre, call := edgeExpr(edge[10])
-		fmt.Fprintf(&b, "def mk0():\n    def inner(chain):\n        if not chain:\n            return 0\n        %sreturn 1 + %s\n    return inner\n",
-			strings.ReplaceAll(pre, "\n    ", "\n        "), call)
+		pre, call := edgeExpr(edge[10], zl)
+		fmt.Fprintf(&b, "def mk0():\n    def inner(%s):\n        if not %s:\n            return 0\n        %sreturn 1 + %s\n    return inner\n",
+			param, test, strings.ReplaceAll(pre, "\n    ", "\n        "), call)
 		b.WriteString("k0a = mk0()\nk0b = mk0()\n")
 		// the chain: up to 4 distinct callables, length up to 6
 		m := 1 + r.Intn(4)
@@ -135,7 +153,11 @@ func recMain(argv []string) {
 		}
 		// two runs in sequence: frames of the first run must be gone when the second starts
 		defs := b.String()
-		fmt.Fprintf(&b, "r1 = %s([%s])\nr2 = %s([%s])\n", chain[0].Name, strings.Join(names[1:], ", "), chain[0].Name, strings.Join(names[1:], ", "))
+		if zl {
+			fmt.Fprintf(&b, "CH.extend([%s])\nr1 = %s()\nCH.extend([%s])\nr2 = %s()\n", strings.Join(names[1:], ", "), chain[0].Name, strings.Join(names[1:], ", "), chain[0].Name)
+		} else {
+			fmt.Fprintf(&b, "r1 = %s([%s])\nr2 = %s([%s])\n", chain[0].Name, strings.Join(names[1:], ", "), chain[0].Name, strings.Join(names[1:], ", "))
+		}
 		src := b.String()
 		// expectation from the rule: the first callable whose code is already active fails
 		firstBad := -1
@@ -196,6 +218,11 @@ func recMain(argv []string) {
 				thread := &starlark.Thread{Name: "c09rec"}
 				thread.SetMaxExecutionSteps(1000000)
 				obs := ""
+				chList, accList := starlark.NewList(nil), starlark.NewList(nil)
+				var pre starlark.StringDict
+				if zl {
+					pre = starlark.StringDict{"CH": chList, "ACC": accList}
+				}
 				func() {
 					defer func() {
 						if r := recover(); r != nil {
@@ -207,7 +234,7 @@ func recMain(argv []string) {
 						r0, g0 := resolve.AllowRecursion, resolve.AllowGlobalReassign
 						resolve.AllowRecursion, resolve.AllowGlobalReassign = rec, !rec
 						defer func() { resolve.AllowRecursion, resolve.AllowGlobalReassign = r0, g0 }()
-						g, err := starlark.ExecFile(thread, "g.star", src, nil)
+						g, err := starlark.ExecFile(thread, "g.star", src, pre)
 						if err == nil {
 							obs = "ok:" + g["r1"].String() + "," + g["r2"].String()
 						} else {
@@ -216,7 +243,7 @@ func recMain(argv []string) {
 						return
 					}
 					if entry == "file" {
-						g, err := starlark.ExecFileOptions(&syntax.FileOptions{Recursion: rec}, thread, "g.star", src, nil)
+						g, err := starlark.ExecFileOptions(&syntax.FileOptions{Recursion: rec}, thread, "g.star", src, pre)
 						if err == nil {
 							obs = "ok:" + g["r1"].String() + "," + g["r2"].String()
 						} else {
@@ -224,7 +251,7 @@ func recMain(argv []string) {
 						}
 						return
 					}
-					g, err := starlark.ExecFileOptions(&syntax.FileOptions{Recursion: rec}, thread, "g.star", defs, nil)
+					g, err := starlark.ExecFileOptions(&syntax.FileOptions{Recursion: rec}, thread, "g.star", defs, pre)
 					if err != nil {
 						obs = "other:definitions do not execute: " + err.Error()
 						return
@@ -237,7 +264,16 @@ func recMain(argv []string) {
 					idle.SetMaxExecutionSteps(1000000)
 					var rs []string
 					for k := 0; k < 2; k++ { // twice in sequence
-						v, err := starlark.Call(idle, g[chain[0].Name], starlark.Tuple{starlark.NewList(rest)}, nil)
+						var callArgs starlark.Tuple
+						if zl {
+							chList.Clear()
+							for _, x := range rest {
+								chList.Append(x)
+							}
+						} else {
+							callArgs = starlark.Tuple{starlark.NewList(rest)}
+						}
+						v, err := starlark.Call(idle, g[chain[0].Name], callArgs, nil)
 						if err != nil {
 							obs = classify(err)
 							return
@@ -258,7 +294,7 @@ func recMain(argv []string) {
 				if entry == "go" {
 					ev = goEvents
 				}
-				c := &recCase{Kind: "rec", Src: src, Rec: rec, Entry: entry, Chain: names, Events: ev, Codes: codes, Obs: obs, Expect: expect}
+				c := &recCase{Kind: "rec", Src: src, Rec: rec, NoLocals: zl, Entry: entry, Chain: names, Events: ev, Codes: codes, Obs: obs, Expect: expect}
 				if entry == "go" {
 					c.Src = defs + "# entered by the host: starlark.Call(idle thread, " + chain[0].Name + ", ([" + strings.Join(names[1:], ", ") + "],)), twice\n"
 				}
@@ -269,6 +305,9 @@ func recMain(argv []string) {
 				key := "on"
 				if !rec {
 					key = "off"
+				}
+				if zl {
+					key += ":nolocals"
 				}
 				dist[key+":"+entry+":"+strings.SplitN(obs, ":", 2)[0]]++
 				hx.Emit(c)
